@@ -818,7 +818,10 @@ ovni_ev_add_jumbo(struct ovni_ev *ev, const uint8_t *buf, uint32_t bufsize)
 
 	size_t totalsize = evsize + bufsize;
 
-	if (totalsize >= OVNI_MAX_EV_BUF)
+	/* Leave room for the two flush events that are added right after the
+	 * jumbo event when the buffer has to be flushed first; otherwise adding
+	 * them would trigger a second, nested flush. */
+	if (totalsize + 2 * sizeof(ev->header) >= OVNI_MAX_EV_BUF)
 		die("event too large");
 
 	/* Check if the event fits or flush first otherwise */
